@@ -17,7 +17,7 @@ INV = ["InvKeptExactly", "InvIdempotent", "InvWidening", "InvFpAlwaysPasses", "I
 def slices(tier):
     big = tier == "thorough"
     LS = '{"car","pedestrian","unknown","bus","false_positive"}'
-    base = dict(XS="-3..3" if big else "{-3,-1,0,2}", YS="{-2,0,1}" if big else "{0,1}", LabelSet=LS, ConfSet="{10,40,70}", PtsSet="{0,3,9}", MaxObjs="1", Sample="0")
+    base = dict(XS="-3..3" if big else "{-3,-1,0,2}", YS="{-2,0,1}" if big else "{0,1}", LabelSet=LS, ConfSet="{10,20,50,70}", PtsSet="{0,3,9}", MaxObjs="1", Sample="0")
     sl = {}
     # lists over two targets have sum = 2 mod 4: the mean bound of a relaxed unknown estimate is never hit exactly
     xy = [fparams(T2, xmax="<<3,7>>", ymax="<<3,3>>"), fparams(T2, xmax="<<5,5>>", ymax="<<1,5>>", conf="<<50,20>>", minPts="<<3,9>>"),
@@ -31,7 +31,7 @@ def slices(tier):
     nopos = [fparams(T2, conf="<<50,20>>", ign="TRUE"), fparams(T2, uuids="TRUE"), fparams(T3, conf="<<20,50,20>>"), fparams("<<>>")]
     sl["labels_only"] = dict(base, XS="{0}", YS="{0}", ParamSet="{%s}" % ", ".join(nopos), WideSet="{}")
     sl["lists"] = dict(base, XS="{-2,0,3}", YS="{0,1}", ParamSet="{%s}" % ", ".join(xy[:2] + ring[:1]), WideSet="{}", MaxObjs="3",
-                       Sample="4000" if big else "400", PtsSet="{3,9}", ConfSet="{40,70}")
+                       Sample="4000" if big else "400", PtsSet="{3,9}", ConfSet="{20,50,70}")
     return sl
 
 
